@@ -37,6 +37,8 @@ Lemma add32_ok a b : a + b <= U32_MAX -> add32 a b = Ok (a + b).
 Proof. intros H. unfold add32. destruct (N.leb_spec (a + b) U32_MAX); [reflexivity|lia]. Qed.
 Lemma mul32_ok a b : a * b <= U32_MAX -> mul32 a b = Ok (a * b).
 Proof. intros H. unfold mul32. destruct (N.leb_spec (a * b) U32_MAX); [reflexivity|lia]. Qed.
+Lemma sub32_ok a b : b <= a -> sub32 a b = Ok (a - b).
+Proof. intros H. unfold sub32. destruct (N.leb_spec b a); [reflexivity|lia]. Qed.
 Lemma div32_ok a b : b <> 0 -> div32 a b = Ok (a / b).
 Proof. intros H. unfold div32. destruct (N.eqb_spec b 0); [contradiction|reflexivity]. Qed.
 
@@ -80,6 +82,7 @@ Definition bpb_inv (d : block) (b : bpb) : Prop :=
   bpb_data b = d /\
   bpb_num_fats d * bpb_fat_size d <= U32_MAX /\
   bpb_non_data d <= bpb_total_blocks d /\
+  1 <= bpb_total_blocks d /\
   bpb_blocks_per_cluster d <> 0 /\
   bpb_cluster_count b = (bpb_total_blocks d - bpb_non_data d) / bpb_blocks_per_cluster d /\
   4085 <= bpb_cluster_count b /\
@@ -130,6 +133,10 @@ Proof.
   fold (bpb_non_data d) in *.
   destruct (N.ltb_spec ((bpb_total_blocks d - bpb_non_data d) / bpb_blocks_per_cluster d) 4085) as [Hlo|Hlo];
     [exact I|].
+  assert (Hpos : 1 <= bpb_total_blocks d).
+  { assert (Hnz : bpb_total_blocks d - bpb_non_data d <> 0).
+    { intros E. rewrite E, N.div_0_l in Hlo by exact Hcc. lia. }
+    lia. }
   destruct (N.ltb_spec ((bpb_total_blocks d - bpb_non_data d) / bpb_blocks_per_cluster d) 65525) as [Hhi|Hhi].
   - unfold bpb_inv. cbn [bpb_data bpb_cluster_count bpb_fat_type].
     destruct (N.ltb_spec ((bpb_total_blocks d - bpb_non_data d) / bpb_blocks_per_cluster d) 65525); [|lia].
@@ -159,10 +166,11 @@ Proof.
   assert (Hblk : block_ok blk) by (eapply Hdev; eassumption).
   assert (Hinv := bpb_create_inv blk Hblk).
   destruct (bpb_create blk) as [b|e|]; cbn [bind]; [|discriminate|contradiction].
-  destruct Hinv as (Hdata & Hmul & Hnd & Hspc & Hcc & Hlo & Hty & Hver).
+  destruct Hinv as (Hdata & Hmul & Hnd & Hpos & Hspc & Hcc & Hlo & Hty & Hver).
   rewrite Hdata.
   destruct (bpb_fields_range blk Hblk) as (Hre & Hrs & Hnf & _ & Hfs & Htot & Hfi).
-  destruct (checked_add32 lba (bpb_total_blocks blk)) as [fit|] eqn:Efit; [|discriminate].
+  rewrite sub32_ok by exact Hpos. cbn [bind].
+  destruct (checked_add32 lba (bpb_total_blocks blk - 1)) as [fit|] eqn:Efit; [|discriminate].
   apply checked_add32_inv in Efit. destruct Efit as [_ Hfit].
   unfold bpb_non_data in Hnd.
   assert (Hsec : (if bpb_num_fats blk =? 2
@@ -284,10 +292,11 @@ Definition boot_facts (g : geom) (d : block) : Prop :=
 
 Ltac valid_split Hv :=
   destruct Hv as (Hslot & Hstatus & Hptype & Hlba & Hpart & Hend & Hspc & Hres & Hnf & Hfs & Hre &
-                  Hfd & Htot & Hu16 & Hmedia & Hhidden & Hbk & Hlabel & Hn & Hkind).
+                  Hfd & Htot & Hu16 & Hmedia & Hhidden & Hbk & Hlabel & Hn & Hkind);
+  cbn [In] in Hstatus, Hnf.
 
 Lemma spc_small g : pow2_upto_128 (g_spc g) -> 1 <= g_spc g < 256.
-Proof. unfold pow2_upto_128. lia. Qed.
+Proof. unfold pow2_upto_128. cbn [In]. lia. Qed.
 
 Lemma total_field16 (u : bool) t : (u = true -> t < 65536) ->
   byte (if u then t else 0) + 256 * byte ((if u then t else 0) / 256) = if u then t else 0.
@@ -437,10 +446,10 @@ Proof.
   rewrite H3, N.eqb_refl. reflexivity.
 Qed.
 
-Lemma parse_volume_format g ib : valid_geom g -> g_lba g + g_total g <= U32_MAX ->
+Lemma parse_volume_format g ib : valid_geom g ->
   parse_volume (format_with g ib) (g_lba g) (g_part_blocks g) = mounted_with g ib.
 Proof.
-  intros Hv Hedge.
+  intros Hv.
   assert (Hf := boot_sector_facts g Hv).
   assert (Hb := bpb_create_of_facts g _ Hv Hf).
   valid_split Hv.
@@ -448,8 +457,9 @@ Proof.
   unfold parse_volume, read_block. rewrite format_with_lba by exact Hlba. cbn [bind].
   rewrite Hb. cbn [bind bpb_data bpb_fat_type bpb_cluster_count].
   rewrite Ftot, Fres, Fnf, Ffs, Fspc.
-  rewrite checked_add32_some by exact Hedge.
   unfold spec_first_data in Hfd. unfold TWO32 in *.
+  rewrite sub32_ok by lia. cbn [bind].
+  rewrite checked_add32_some by (unfold U32_MAX; lia).
   assert (Hsec : (if g_nfats g =? 2 then let! s := add32 (g_reserved g) (g_fat_size g) in Ok (Some s) else Ok None)
                  = Ok (if g_nfats g =? 2 then Some (g_reserved g + g_fat_size g) else None)).
   { destruct (N.eqb_spec (g_nfats g) 2) as [E2|E2]; [|reflexivity].
@@ -463,7 +473,7 @@ Proof.
     rewrite add32_ok by (unfold U32_MAX; lia). cbn [bind].
     rewrite Ffi, Frc, Flab.
     destruct (N.leb_spec (g_total g) (g_fs_info g)) as [Hbad|_]; [lia|].
-    rewrite add32_ok by lia. cbn [bind].
+    rewrite add32_ok by (unfold U32_MAX; lia). cbn [bind].
     rewrite format_with_info by (assumption || lia). cbn [bind].
     destruct (info_create ib) as [i|e|]; cbn [bind]; try reflexivity.
     rewrite hint_agrees, free_agrees.
@@ -493,18 +503,18 @@ Proof.
   unfold TWO32, spec_first_data in *.
   rewrite (le32_rt (g_lba g)) by (unfold TWO32; lia).
   rewrite (le32_rt (g_part_blocks g)) by (unfold TWO32; lia).
-  assert (Hty : byte (g_ptype g) = g_ptype g) by (apply byte_id; unfold fat_partition_type in Hptype; lia).
+  assert (Hty : byte (g_ptype g) = g_ptype g) by (apply byte_id; unfold fat_partition_type in Hptype; cbn [In] in Hptype; lia).
   rewrite Hty.
-  destruct Hstatus as [-> | ->]; reflexivity.
+  destruct Hstatus as [<- | [<- | []]]; reflexivity.
 Qed.
 
 Lemma supported_fat_types t : fat_partition_type t -> supported_type t = true.
-Proof. unfold fat_partition_type. intros [->|[->|[->|[->| ->]]]]; reflexivity. Qed.
+Proof. unfold fat_partition_type. intros [<-|[<-|[<-|[<-|[<-|[]]]]]]; reflexivity. Qed.
 
-Theorem mount_format_with g ib : valid_geom g -> g_lba g + g_total g <= U32_MAX ->
+Theorem mount_format_with g ib : valid_geom g ->
   mount (format_with g ib) (g_slot g) = mounted_with g ib.
 Proof.
-  intros Hv Hedge. unfold mount. rewrite read_mbr_format by exact Hv. cbn [bind].
+  intros Hv. unfold mount. rewrite read_mbr_format by exact Hv. cbn [bind].
   rewrite supported_fat_types by (valid_split Hv; exact Hptype).
   apply parse_volume_format; assumption.
 Qed.
@@ -526,32 +536,15 @@ Proof.
     apply le32_rt. exact Hn.
 Qed.
 
-Theorem mount_format g : valid_geom g -> g_lba g + g_total g < TWO32 ->
+Theorem mount_format g : valid_geom g ->
   mount (format g) (g_slot g) = Ok (layout g).
 Proof.
-  intros Hv Hedge. unfold format. rewrite mount_format_with by (unfold TWO32, U32_MAX in *; assumption || lia).
+  intros Hv. unfold format. rewrite mount_format_with by assumption.
   unfold mounted_with. destruct (is_fat32 g) eqn:E32; [|reflexivity].
   valid_split Hv. rewrite E32 in Hkind.
   destruct Hkind as (Hmax & Hfat & Hre0 & Hu & Hrc & Hfi & Hfree & Hnext).
   destruct (info_sector_facts g Hfree Hnext) as (Hc & H488 & H492).
   rewrite Hc. cbn [bind]. rewrite H488, H492. reflexivity.
-Qed.
-
-(* a well-formed partition that ends exactly at the end of the 32-bit block address space
-   (its last block is 2^32-1) is turned away: the check added to parse_volume computes
-   lba_start + total_blocks in u32 *)
-Theorem mount_format_edge g : valid_geom g -> g_lba g + g_total g = TWO32 ->
-  mount (format g) (g_slot g) = Err (FormatError NoFit).
-Proof.
-  intros Hv Hedge. unfold mount, format. rewrite read_mbr_format by exact Hv. cbn [bind].
-  rewrite supported_fat_types by (valid_split Hv; exact Hptype).
-  assert (Hf := boot_sector_facts g Hv).
-  assert (Hb := bpb_create_of_facts g _ Hv Hf).
-  valid_split Hv.
-  destruct Hf as (Ffoot & Fbpb & Fspc & Fres & Fnf & Fre & Ffs & Ftot & Fkind).
-  unfold parse_volume, read_block. rewrite format_with_lba by exact Hlba. cbn [bind].
-  rewrite Hb. cbn [bind bpb_data]. rewrite Ftot.
-  unfold checked_add32. rewrite Hedge. reflexivity.
 Qed.
 
 (* ======================================================================== *)
@@ -588,8 +581,10 @@ Proof.
   rewrite Hu. clear Hu.
   destruct (is_fat32 g).
   - repeat rewrite andb_true_iff. repeat rewrite N.ltb_lt. repeat rewrite N.leb_le.
-    rewrite N.eqb_eq, negb_true_iff. intuition auto.
-  - repeat rewrite andb_true_iff. repeat rewrite N.ltb_lt. repeat rewrite N.leb_le. intuition auto.
+    rewrite N.eqb_eq, negb_true_iff.
+    split; intros H; repeat match goal with H : _ /\ _ |- _ => destruct H end; repeat split; assumption.
+  - repeat rewrite andb_true_iff. repeat rewrite N.ltb_lt. repeat rewrite N.leb_le.
+    split; intros H; repeat match goal with H : _ /\ _ |- _ => destruct H end; repeat split; assumption.
 Qed.
 
 (* ======================================================================== *)
@@ -604,7 +599,7 @@ Lemma info_create_cases d :
 Proof. reflexivity. Qed.
 
 Theorem info_sentinels g ib :
-  valid_geom g -> g_lba g + g_total g < TWO32 -> is_fat32 g = true ->
+  valid_geom g -> is_fat32 g = true ->
   let r := mount (format_with g ib) (g_slot g) in
   (get32 ib 0 <> LEAD_SIG -> r = Err (FormatError LeadSig)) /\
   (get32 ib 0 = LEAD_SIG -> get32 ib 484 <> STRUC_SIG -> r = Err (FormatError StrucSig)) /\
@@ -617,8 +612,8 @@ Theorem info_sentinels g ib :
        (get32 ib 492 = 4294967295 \/ get32 ib 492 = 0 \/ get32 ib 492 = 1 -> next_free_cluster v = None) /\
        (get32 ib 492 <> 4294967295 -> 2 <= get32 ib 492 -> next_free_cluster v = Some (get32 ib 492))).
 Proof.
-  intros Hv Hedge E32 r. subst r.
-  rewrite mount_format_with by (unfold TWO32, U32_MAX in *; assumption || lia).
+  intros Hv E32 r. subst r.
+  rewrite mount_format_with by assumption.
   unfold mounted_with. rewrite E32, info_create_cases.
   split; [|split; [|split]].
   - intros H. destruct (N.eqb_spec (get32 ib 0) LEAD_SIG); [contradiction|reflexivity].
@@ -669,7 +664,7 @@ Proof.
     + intros H. destruct (N.eqb_spec (get16 m 510) 43605); [contradiction|reflexivity].
     + intros ->. cbn [N.eqb Pos.eqb negb]. split.
       * intros H. rewrite partition_start_ge4 by exact H. reflexivity.
-      * intros H p. rewrite partition_start_lt4 by exact H. fold p. rewrite N.add_0_r.
+      * intros H. rewrite partition_start_lt4 by exact H. rewrite N.add_0_r. set (p := 446 + 16 * idx).
         split; [|split].
         -- intros Hs. destruct (N.eqb_spec (N.land (get8 m p) 127) 0); [contradiction|reflexivity].
         -- intros -> Ht. cbn [N.eqb negb bind].
@@ -682,4 +677,117 @@ Proof.
            assert (E : supported_type (get8 m (p + 4)) = true).
            { cbn [In] in Ht. destruct Ht as [<-|[<-|[<-|[<-|[<-|[]]]]]]; reflexivity. }
            rewrite E. reflexivity.
+Qed.
+
+(* ======================================================================== *)
+(* 9. the formatter only ever writes bytes; concrete geometries *)
+
+Lemma byte_lt v : byte v < 256.
+Proof. unfold byte. apply N.mod_lt. discriminate. Qed.
+
+Lemma lookup_ok l : Forall (fun kv => snd kv < 256) l -> block_ok (lookup l).
+Proof.
+  intros H i _. induction H as [|[k v] r Hv _ IH]; cbn [lookup]; [reflexivity|].
+  destruct (N.eqb i k); [exact Hv|exact IH].
+Qed.
+
+Ltac bytes_list := repeat (apply Forall_cons; [cbn [snd]; first [apply byte_lt | reflexivity]|]); apply Forall_nil.
+
+Lemma format_device_ok g ib : block_ok ib -> device_ok (format_with g ib).
+Proof.
+  intros Hib idx b. unfold format_with.
+  destruct (idx =? 0).
+  { intros H. inversion H. apply lookup_ok. unfold mbr_fields, le16, le32. cbn [app]. bytes_list. }
+  destruct (idx =? g_lba g).
+  { intros H. inversion H. unfold boot_sector. destruct (is_fat32 g); apply lookup_ok.
+    - cbv [boot32_fields boot_common le16 le32 bytes_at range map app N.succ Pos.succ]. bytes_list.
+    - cbv [boot16_fields boot_common le16 le32 bytes_at range map app N.succ Pos.succ]. bytes_list. }
+  destruct (is_fat32 g && (idx =? g_lba g + g_fs_info g)).
+  { intros H. inversion H. subst. exact Hib. }
+  intros H. inversion H. intros i _. reflexivity.
+Qed.
+
+Lemma info_sector_ok g : block_ok (info_sector g).
+Proof. apply lookup_ok. unfold info_fields, le32. cbn [app]. bytes_list. Qed.
+
+Lemma format_ok g : device_ok (format g).
+Proof. apply format_device_ok. apply info_sector_ok. Qed.
+
+(* FAT16: 4085 clusters of one block, two FATs of 17 blocks, 512 root entries, at block 63,
+   total in the 16-bit field *)
+Definition ex16 : geom :=
+  mkGeom 0 0 6 63 5000 4152 true 1 1 2 17 512 0 0 0 248 63 0 0 (fun _ => 32).
+(* FAT32: 65928 clusters of one block, 32 reserved, two FATs of 520 blocks, second MBR entry,
+   bootable, free count unknown, hint 1 (not a cluster) *)
+Definition ex32 : geom :=
+  mkGeom 1 128 12 2048 70000 67000 false 1 32 2 520 0 2 1 6 248 2048 4294967295 1 (fun k => 65 + k).
+(* a FAT16 volume whose last block is block 2^32-1 of the card *)
+Definition ex_edge : geom :=
+  mkGeom 3 0 6 4294963144 4152 4152 true 1 1 2 17 512 0 0 0 248 63 0 0 (fun _ => 32).
+
+Lemma ex16_valid : valid_geom ex16.
+Proof. apply valid_geomb_spec. vm_compute. reflexivity. Qed.
+Lemma ex32_valid : valid_geom ex32.
+Proof. apply valid_geomb_spec. vm_compute. reflexivity. Qed.
+Lemma ex_edge_valid : valid_geom ex_edge.
+Proof. apply valid_geomb_spec. vm_compute. reflexivity. Qed.
+
+Lemma ex16_mounts :
+  mount (format ex16) 0 =
+  Ok (mkVolume 63 5000 [32;32;32;32;32;32;32;32;32;32;32] 1 67 1 (Some 18) None None 4085 (Fat16Info 35 512)).
+Proof. vm_compute. reflexivity. Qed.
+Lemma ex32_mounts :
+  mount (format ex32) 1 =
+  Ok (mkVolume 2048 70000 [65;66;67;68;69;70;71;72;73;74;75] 1 1072 32 (Some 552) None None 65928
+        (Fat32Info 2 2049)).
+Proof. vm_compute. reflexivity. Qed.
+
+Lemma ex_edge_mounts :
+  mount (format ex_edge) 3 =
+  Ok (mkVolume 4294963144 4152 [32;32;32;32;32;32;32;32;32;32;32] 1 67 1 (Some 18) None None 4085 (Fat16Info 35 512)).
+Proof. vm_compute. reflexivity. Qed.
+
+(* the byte-range premise of the totality theorem matters, and Panic is a live outcome of
+   the model: a "sector" whose entries are not bytes overflows root_entries_count * 32 *)
+Definition unbounded_device : device :=
+  fun idx => Some (fun off =>
+    if idx =? 0 then lookup (mbr_fields ex16) off
+    else if off =? 17 then 1099511627776 else lookup (boot16_fields ex16) off).
+Lemma panic_is_reachable_without_byte_range : mount unbounded_device 0 = Panic.
+Proof. vm_compute. reflexivity. Qed.
+
+(* an all-ones card is a device of bytes, and is turned away at the MBR signature *)
+Definition ones_device : device := fun _ => Some (fun _ => 255).
+Lemma ones_device_ok : device_ok ones_device.
+Proof. intros idx b H. inversion H. intros i _. reflexivity. Qed.
+Lemma ones_device_rejected : mount ones_device 0 = Err (FormatError MbrSig).
+Proof. vm_compute. reflexivity. Qed.
+
+(* the prescribed layout spelled out field by field *)
+Theorem mount_format_fields g :
+  valid_geom g ->
+  exists v, mount (format g) (g_slot g) = Ok v /\
+    lba_start v = g_lba g /\ num_blocks v = g_part_blocks g /\
+    name v = map (g_label g) (range 0 11) /\
+    blocks_per_cluster v = g_spc g /\
+    fat_start v = g_reserved g /\
+    second_fat_start v = (if g_nfats g =? 2 then Some (g_reserved g + g_fat_size g) else None) /\
+    first_data_block v = g_reserved g + g_nfats g * g_fat_size g + (g_root_entries g * 32 + 511) / 512 /\
+    cluster_count v = (g_total g - first_data_block v) / g_spc g /\
+    (cluster_count v < 65525 ->
+       fat_specific_info v = Fat16Info (g_reserved g + g_nfats g * g_fat_size g) (g_root_entries g) /\
+       free_clusters_count v = None /\ next_free_cluster v = None) /\
+    (65525 <= cluster_count v ->
+       fat_specific_info v = Fat32Info (g_root_cluster g) (g_lba g + g_fs_info g) /\
+       free_clusters_count v = spec_free (g_info_free g) /\
+       next_free_cluster v = spec_hint (g_info_next g)).
+Proof.
+  intros Hv. exists (layout g). split; [apply mount_format; assumption|].
+  unfold layout, layout_with.
+  cbn [lba_start num_blocks name blocks_per_cluster fat_start second_fat_start first_data_block
+       cluster_count fat_specific_info free_clusters_count next_free_cluster].
+  repeat (split; [reflexivity|]).
+  unfold is_fat32. split; intros H.
+  - destruct (N.leb_spec 65525 (n_clusters g)); [lia|]. repeat split.
+  - destruct (N.leb_spec 65525 (n_clusters g)); [|lia]. repeat split.
 Qed.
